@@ -7,6 +7,7 @@ import (
 	"go/types"
 	"sort"
 	"strings"
+	"syscall"
 
 	"golang.org/x/tools/go/ssa"
 )
@@ -319,6 +320,15 @@ func ruleTempNotLive(c *Ctx, r *Rule) {
 						}
 					}
 				}
+				// the temporary file starts empty: os.Create, or OpenFile with O_TRUNC / O_EXCL
+				// (a leftover of a killed save must not survive under a shorter new snapshot)
+				empty := q == "os.Create"
+				if q == "os.OpenFile" && len(ci.Common().Args) >= 2 {
+					if fl, isK := constInt(ci.Common().Args[1]); isK {
+						empty = fl&int64(syscall.O_TRUNC) != 0 || fl&int64(syscall.O_EXCL) != 0
+					}
+				}
+				r.Ob(empty, c.fnName(g)+"|temp-starts-empty", ci.Pos(), "the temporary file is truncated (or exclusively created) when opened: what gets renamed is exactly what this save wrote")
 				r.Ob(same, c.fnName(g)+"|opens-rename-source", ci.Pos(), "the file written is the one that is renamed: open("+c.path(p)+") vs rename("+c.path(src)+", …)")
 			}
 			return n
